@@ -17,6 +17,12 @@ func errRules() []*Rule {
 		{ID: "ERR-2", Props: []string{"C12", "C01", "C02", "C15", "C19"}, Min: 120,
 			Doc: "on the failing edge of every `err != nil` test the function returns a non-nil error, or (no error result) latches a non-nil error into a captured cell/field on every path",
 			Run: runErr2},
+		{ID: "ERR-7", Props: []string{"C12", "C18", "C01", "C02"}, Min: 20,
+			Doc: "an error obtained inside a loop is looked at in the iteration that obtained it: it is never merely carried into the next iteration (where the next call's result overwrites it)",
+			Run: runErr7},
+		{ID: "ERR-SENTINEL", Props: []string{"C12", "C10", "C16"}, Min: 4,
+			Doc: "the tokenizer's number reader has no error result: every failed strconv parse in it returns length −1, and its caller turns a negative length into an error before using the token",
+			Run: runErrSentinel},
 		{ID: "SKIP-1", Props: []string{"C12", "C02"}, Min: 4,
 			Doc: "scan adapters of the root package never skip a row silently: every path delivers the row to the user's callback, or records an error and stops",
 			Run: runSkip1},
@@ -36,7 +42,21 @@ func errRules() []*Rule {
 }
 
 // errPackages are the packages whose functions are the read path.
-var errPackages = map[string]bool{"db": true, ".": true, "driver": true}
+var errPackages = map[string]bool{"db": true, ".": true, "driver": true, "sql": true}
+
+// errFn: fn belongs to the read path's own code — the goyacc driver skeleton (debug Printf calls, no error results)
+// is generated and is not judged by the error rules.
+func errFn(p *Program, fn *ssa.Function) bool {
+	if !errPackages[p.PkgShort(fn)] {
+		return false
+	}
+	top := fn
+	for top.Parent() != nil {
+		top = top.Parent()
+	}
+	pos := p.Pos(top.Pos())
+	return !strings.Contains(pos, "yaccpar") && !strings.HasPrefix(pos, "sql/parser.go")
+}
 
 // errExcludedCallee: the lock/close family (PAGER's discipline) and infallible writers.
 func errExcludedCallee(p *Program, callee *ssa.Function, cs ssa.CallInstruction) string {
@@ -97,7 +117,7 @@ func lastResultIsError(sig *types.Signature) bool {
 func errSources(p *Program, includeUnreachable bool) []errSource {
 	var out []errSource
 	for _, fn := range p.ModFuncs() {
-		if !errPackages[p.PkgShort(fn)] {
+		if !errFn(p, fn) {
 			continue
 		}
 		if !includeUnreachable && !p.Reachable(fn) {
@@ -180,6 +200,8 @@ func errException(p *Program, fn *ssa.Function, cs ssa.CallInstruction) string {
 				return "an index whose SQL does not parse is left out of the schema (C10 allows `the index left out`)"
 			}
 		}
+	case "sql.readNumericLiteral":
+		return "has no error result: a number that does not parse is reported as length −1, which tokenize turns into an error (rule ERR-SENTINEL decides both halves)"
 	case "sqlittle.stringToInt64":
 		if cs != nil {
 			if c := cs.Common().StaticCallee(); c != nil && isLibFunc(c, "strconv", "ParseInt") {
@@ -311,6 +333,14 @@ func isSharedErrorStore(in ssa.Instruction) bool {
 		return isCapturedCell(a)
 	case *ssa.FieldAddr:
 		return true
+	case *ssa.Parameter:
+		// an out-parameter `*error` the caller handed in
+		return true
+	case *ssa.UnOp:
+		// … or a closure's captured copy of one
+		if _, isFV := a.X.(*ssa.FreeVar); isFV && a.Op == token.MUL {
+			return true
+		}
 	}
 	return false
 }
@@ -318,7 +348,7 @@ func isSharedErrorStore(in ssa.Instruction) bool {
 func runErr2(c *Ctx) {
 	p := c.P
 	for _, fn := range p.ModFuncs() {
-		if !errPackages[p.PkgShort(fn)] {
+		if !errFn(p, fn) {
 			continue
 		}
 		n := 0
@@ -840,5 +870,266 @@ func runDone3(c *Ctx) {
 			enumPaths(call.Block(), instrIndex(call)+1, pv)
 			c.Check(bad == "" && ev != nil, key, call.Pos(), "after the iteration the scan %s", orStr(bad, "returns exactly the iteration's error: an early stop (done=true, nil) yields a nil error"))
 		}
+	}
+}
+
+// sentinelFuncs: functions that report an error through a sentinel value of one of their results (confirmed by
+// reading). Result index and sentinel value.
+var sentinelFuncs = map[string]struct {
+	Result   int
+	Sentinel int64
+}{
+	"sql.readNumericLiteral": {1, -1},
+}
+
+func runErrSentinel(c *Ctx) {
+	p := c.P
+	for _, name := range sortedKeys(sentinelFuncs) {
+		spec := sentinelFuncs[name]
+		fn := findFn(p, name)
+		if fn == nil {
+			c.Undecided("anchor "+name, token.NoPos, "function not found (renamed or removed): its error convention has to be confirmed again")
+			continue
+		}
+		if lastResultIsError(fn.Signature) {
+			c.Trivial(name+" has an error result", fn.Pos(), "the function now returns an error; ERR-1/ERR-2 judge it")
+			continue
+		}
+		dominatedReturns := func(from *ssa.BasicBlock) ([]*ssa.Return, bool) {
+			var rets []*ssa.Return
+			seen := map[*ssa.BasicBlock]bool{}
+			closed := true
+			var walk func(b *ssa.BasicBlock)
+			walk = func(b *ssa.BasicBlock) {
+				if seen[b] {
+					return
+				}
+				seen[b] = true
+				if b != from && !from.Dominates(b) {
+					closed = false
+					return
+				}
+				if r, ok := b.Instrs[len(b.Instrs)-1].(*ssa.Return); ok {
+					rets = append(rets, r)
+				}
+				for _, s := range b.Succs {
+					walk(s)
+				}
+			}
+			walk(from)
+			return rets, closed
+		}
+		// the producer's half
+		n := 0
+		for _, cs := range callsIn(fn) {
+			if !lastResultIsError(cs.Common().Signature()) {
+				continue
+			}
+			n++
+			key := fmt.Sprintf("%s→%s#%d", name, calleeName(p, cs), n)
+			call, ok := cs.(*ssa.Call)
+			if !ok {
+				c.Fail(key, cs.Pos(), "the error of a deferred or spawned call cannot be reported")
+				continue
+			}
+			var errV ssa.Value
+			if call.Call.Signature().Results().Len() == 1 {
+				errV = call
+			} else {
+				for _, r := range *call.Referrers() {
+					if e, ok := r.(*ssa.Extract); ok && e.Index == call.Call.Signature().Results().Len()-1 {
+						errV = e
+					}
+				}
+			}
+			var test *nilTest
+			if errV != nil {
+				for _, b := range fn.Blocks {
+					if t := nilTestOf(b.Instrs[len(b.Instrs)-1]); t != nil && t.V == errV {
+						test = t
+					}
+				}
+			}
+			if test == nil {
+				c.Fail(key, call.Pos(), "the error of %s is not tested: a number that does not parse would be reported as a token (value 0)", calleeName(p, cs))
+				continue
+			}
+			rets, closed := dominatedReturns(test.NonNil)
+			bad := ""
+			if !closed || len(rets) == 0 || len(test.NonNil.Preds) != 1 {
+				bad = "the failing edge does not end in returns of its own"
+			}
+			for _, r := range rets {
+				if k, ok := constInt(r.Results[spec.Result]); !ok || k != spec.Sentinel {
+					bad = fmt.Sprintf("the failing edge returns %s at %s, not the sentinel %d", (&Termer{P: p}).Term(r.Results[spec.Result], emptyPS()), p.Pos(r.Pos()), spec.Sentinel)
+				}
+			}
+			c.Check(bad == "", key, call.Pos(), "when %s fails the function returns the sentinel %d in result %d %s", calleeName(p, cs), spec.Sentinel, spec.Result, map[bool]string{true: "", false: "— " + bad}[bad == ""])
+		}
+		// the consumers' half
+		m := 0
+		for _, caller := range p.ModFuncs() {
+			for _, cs := range callsIn(caller) {
+				if cs.Common().StaticCallee() != fn {
+					continue
+				}
+				m++
+				key := fmt.Sprintf("%s→%s#%d", p.FnKey(caller), name, m)
+				call, ok := cs.(*ssa.Call)
+				if !ok {
+					c.Fail(key, cs.Pos(), "the sentinel of a deferred or spawned call cannot be looked at")
+					continue
+				}
+				var sent *ssa.Extract
+				var others []ssa.Instruction
+				for _, r := range *call.Referrers() {
+					if e, ok := r.(*ssa.Extract); ok {
+						if e.Index == spec.Result {
+							sent = e
+						} else {
+							others = append(others, *e.Referrers()...)
+						}
+					}
+				}
+				if sent == nil {
+					c.Fail(key, call.Pos(), "result %d (the sentinel) is not looked at", spec.Result)
+					continue
+				}
+				// the test: `l < 0`, `l == -1`, `l <= -1` (or the mirrored / negated spellings)
+				var failing *ssa.BasicBlock
+				var testBlk *ssa.BasicBlock
+				for _, r := range *sent.Referrers() {
+					bo, ok := r.(*ssa.BinOp)
+					if !ok {
+						others = append(others, r)
+						continue
+					}
+					k, isK := constInt(bo.Y)
+					if !isK || bo.X != ssa.Value(sent) {
+						others = append(others, r)
+						continue
+					}
+					// on which outcome of the comparison is the value certainly the sentinel-or-negative?
+					var onTrue, onFalse bool
+					switch {
+					case bo.Op == token.LSS && k <= 0 && k > spec.Sentinel, bo.Op == token.LEQ && k < 0 && k >= spec.Sentinel, bo.Op == token.EQL && k == spec.Sentinel:
+						onTrue = true
+					case bo.Op == token.GEQ && k <= 0 && k > spec.Sentinel, bo.Op == token.GTR && k < 0 && k >= spec.Sentinel, bo.Op == token.NEQ && k == spec.Sentinel:
+						onFalse = true
+					}
+					found := false
+					for _, u := range *bo.Referrers() {
+						if i, ok := u.(*ssa.If); ok && (onTrue || onFalse) {
+							testBlk = i.Block()
+							if onTrue {
+								failing = i.Block().Succs[0]
+							} else {
+								failing = i.Block().Succs[1]
+							}
+							found = true
+						}
+					}
+					if !found {
+						others = append(others, r)
+					}
+				}
+				if failing == nil {
+					c.Fail(key, call.Pos(), "the length result is never compared with the sentinel %d: a number that does not parse goes on as a token", spec.Sentinel)
+					continue
+				}
+				bad := ""
+				rets, closed := dominatedReturns(failing)
+				if !closed || len(rets) == 0 || len(failing.Preds) != 1 {
+					bad = "the sentinel's edge does not end in returns of its own"
+				}
+				for _, r := range rets {
+					e := r.Results[len(r.Results)-1]
+					if !isErrorType(e.Type()) || err6Fine(caller, r.Block(), e, func(ssa.Value) bool { return false }, map[ssa.Value]bool{}) == "" {
+						bad = "on the sentinel's edge the caller returns at " + p.Pos(r.Pos()) + " without a non-nil error"
+					}
+				}
+				// nothing uses the token or the length before the test
+				for _, u := range others {
+					if u.Block() == nil || u.Block() == testBlk {
+						continue
+					}
+					if !testBlk.Dominates(u.Block()) {
+						bad = "a result is used at " + p.Pos(u.Pos()) + " before the sentinel is tested"
+					}
+				}
+				c.Check(bad == "", key, call.Pos(), "the caller turns the sentinel into an error before it uses the token %s", map[bool]string{true: "", false: "— " + bad}[bad == ""])
+			}
+		}
+	}
+}
+
+// runErr7: `for … { x, err = f(i) }; return err` reports the last iteration's error only.
+func runErr7(c *Ctx) {
+	p := c.P
+	n := 0
+	for _, src := range errSources(p, false) {
+		call, ok := src.Call.(*ssa.Call)
+		if !ok || !inCycle(call.Block()) {
+			continue
+		}
+		var errV ssa.Value
+		res := call.Call.Signature().Results()
+		if res.Len() == 1 {
+			errV = call
+		} else {
+			for _, r := range *call.Referrers() {
+				if e, ok := r.(*ssa.Extract); ok && e.Index == res.Len()-1 {
+					errV = e
+				}
+			}
+		}
+		if errV == nil {
+			continue // ERR-1's business
+		}
+		n++
+		looked := false
+		var carried *ssa.Phi
+		seen := map[ssa.Value]bool{}
+		var visit func(v ssa.Value)
+		visit = func(v ssa.Value) {
+			if seen[v] || v.Referrers() == nil {
+				return
+			}
+			seen[v] = true
+			for _, r := range *v.Referrers() {
+				switch x := r.(type) {
+				case *ssa.DebugRef:
+				case *ssa.Phi:
+					if x.Block().Dominates(call.Block()) && inCycle(x.Block()) {
+						carried = x
+					}
+					visit(x)
+				default:
+					looked = true
+				}
+			}
+		}
+		visit(errV)
+		// a phi that merges the value at the loop's header: is the merged value ever anything but carried on?
+		if carried != nil {
+			// something other than phis and returns after the loop looked at the value itself (not the merge)
+			direct := false
+			for _, r := range *errV.Referrers() {
+				switch r.(type) {
+				case *ssa.DebugRef, *ssa.Phi:
+				default:
+					direct = true
+				}
+			}
+			if !direct {
+				c.Fail(src.Key+" in loop", call.Pos(), "the error of %s is only carried into the next iteration of the loop (merged at %s), where the next result replaces it: of all the iterations only the last one's failure is reported", src.Name, p.Pos(carried.Pos()))
+				continue
+			}
+		}
+		_ = looked
+		c.Pass(src.Key+" in loop", call.Pos(), "looked at in the iteration that obtained it")
+	}
+	if n == 0 {
+		c.Pass("no error-producing call inside a loop", token.NoPos, "nothing to decide")
 	}
 }
